@@ -14,7 +14,8 @@ RULE = ("point sets: gaussian clouds (5-60 points), integer lattices (coplanar /
         "origin, points on a sphere, cylinder vertices, elongated clouds; as PointCloud, as the hull mesh, and as a "
         "non-convex mesh (torus, L-shaped union); randomly rotated / translated. Queries: convex_hull, bounds, "
         "bounding_box_oriented, oriented_bounds (ordered / unordered, given normal, angle_digits), apply_obb (with "
-        "and without normal), bounding_sphere / minimum_nsphere, bounding_cylinder. Every output is converted to "
+        "and without normal), bounding_sphere / minimum_nsphere, bounding_cylinder; oriented_bounds_2D on planar clouds "
+        "(rigid, tight, centred, not larger than the axis-aligned box: Python oracle only). Every 3D output is converted to "
         "exact rationals and judged by the Lean checkers of Model/Bounds.lean (hullCheck, aabbCheck, obbCheck, "
         "sphereCheck + minimality certificate, cylCheck). non-trivial = the checker ran on a real output")
 TRUSTED = ["qhull / scipy optimisers are not modelled: each output is certified per run by the proved checker",
@@ -100,7 +101,14 @@ def cases(ctx):
             yield {"cloud": kind, "seed": 5, "query": "apply_obb", "move": True, "as": "cloud", "normal": nrm}
             yield {"cloud": kind, "seed": 5, "query": "obb_opts", "move": True, "as": "cloud", "normal": nrm,
                    "ordered": True, "angle_digits": 1}
+    for kind2 in ("random", "lattice", "circle", "long", "far"):
+        yield {"cloud": kind2, "seed": 3, "query": "obb2d", "move": False, "as": "cloud"}
     while True:
+        if rng.random() < 0.12:
+            ctx.count("query:obb2d")
+            yield {"cloud": rng.choice(["random", "lattice", "circle", "long", "far", "cluster2"]), "seed": rng.randrange(10 ** 6),
+                   "query": "obb2d", "move": False, "as": "cloud"}
+            continue
         kind = rng.choice(KINDS)
         q = rng.choice(QUERIES)
         c = {"cloud": kind, "seed": rng.randrange(10 ** 6), "query": q, "move": rng.random() < 0.5,
@@ -116,9 +124,38 @@ def cases(ctx):
         yield c
 
 
+def cloud2d(kind, seed):
+    g = np.random.default_rng(seed)
+    if kind == "random":
+        return g.normal(size=(int(g.integers(4, 40)), 2))
+    if kind == "lattice":
+        n = int(g.integers(2, 5))
+        return np.array(list(itertools.product(range(n), range(n + 1))), float) @ np.array([[0.8, 0.6], [-0.6, 0.8]])
+    if kind == "circle":
+        a = np.linspace(0, 2 * np.pi, 17)[:-1]
+        return np.c_[np.cos(a), np.sin(a)] * g.uniform(0.5, 3) + g.normal(size=2)
+    if kind == "long":
+        return g.normal(size=(25, 2)) * [7, 0.3] @ np.array([[0.6, 0.8], [-0.8, 0.6]]) + g.normal(size=2) * 4
+    if kind == "far":
+        return g.normal(size=(20, 2)) + [1e5, -3e5]
+    return np.vstack([g.normal(size=(8, 2)) * 1e-4 + c for c in g.normal(size=(4, 2))])
+
+
 def run_case(c):
     import trimesh
     from trimesh import bounds, nsphere
+    if c["query"] == "obb2d":
+        P = cloud2d(c["cloud"], c["seed"])
+        T, rect = bounds.oriented_bounds_2D(P)
+        Q = (np.c_[P, np.ones(len(P))] @ np.array(T).T)[:, :2]
+        R = np.array(T)[:2, :2]
+        return {"n": len(P), "span": float(np.ptp(P, axis=0).max()), "mag": float(np.abs(P).max()),
+                "rigid": float(np.abs(R @ R.T - np.eye(2)).max()), "det": float(np.linalg.det(R)),
+                "last_row": np.array(T)[2].tolist(), "rect": np.array(rect).tolist(),
+                "excess": float((np.abs(Q) - np.array(rect) / 2).max()),
+                "slack": (np.array(rect) / 2 - np.abs(Q).max(axis=0)).tolist(),
+                "center": ((Q.max(axis=0) + Q.min(axis=0)) / 2).tolist(),
+                "axis_area": float(np.prod(np.ptp(P, axis=0)))}
     geom, P = geometry(c)
     q = c["query"]
     span = float(np.ptp(P, axis=0).max())
@@ -173,6 +210,20 @@ def run_case(c):
 def oracle(c, o):
     if "err" in o:
         return {"query": c["query"], "fail": "raised", "err": o["err"], "cloud": c["cloud"]}
+    if c["query"] == "obb2d":
+        sc = max(o["span"], o["mag"] * 1e-6, 1e-300)
+
+        def bad2(what):
+            return {"query": "obb2d", "check": what, "cloud": c["cloud"]}
+        if o["rigid"] > 1e-9 or abs(abs(o["det"]) - 1) > 1e-9 or o["last_row"] != [0.0, 0.0, 1.0]:
+            return bad2("transform-not-rigid")
+        if o["excess"] > 1e-6 * sc:
+            return bad2("points-outside-the-reported-rectangle")
+        if max(abs(x) for x in o["slack"]) > 1e-6 * sc or max(abs(x) for x in o["center"]) > 1e-6 * sc:
+            return bad2("rectangle-not-tight-or-not-centred")
+        if o["rect"][0] * o["rect"][1] > o["axis_area"] * (1 + 1e-9) + 1e-12:
+            return bad2("rectangle-larger-than-the-axis-aligned-box")
+        return None
     if c["query"] == "apply_obb":
         sc = max(o["span"], 1e-12)
         if max(abs(x) for x in o["center_after"]) > 1e-6 * max(sc, o["mag"] * 1e-3):
@@ -221,7 +272,7 @@ def _certificate(P, c, r):
 
 
 def model_request(c, o):
-    if "err" in o:
+    if "err" in o or c["query"] == "obb2d":
         return None
     geom, P = geometry(c)
     q = c["query"]
